@@ -18,7 +18,7 @@ use anstream::{AutoStream, ColorChoice, StripStream};
 use std::io::Write;
 
 pub const MODES: [&str; 6] = ["never", "new_never", "always_ansi", "always", "new_always_ansi", "new_always"];
-pub const WRITERS: [&str; 7] = ["box_dyn", "mut_dyn", "box_dyn_send", "vec", "mut_vec", "file", "mut_file"];
+pub const WRITERS: [&str; 8] = ["box_dyn", "mut_dyn", "box_dyn_send", "vec", "mut_vec", "buffer", "file", "mut_file"];
 
 fn strips(mode: &str) -> bool {
     matches!(mode, "never" | "new_never")
@@ -30,7 +30,7 @@ pub fn generate(rng: &mut Rng, seed: u64, run: u64, max_len: usize) -> Trace {
     let writer = if rng.chance(1, 200) {
         *rng.pick(&["file", "mut_file"])
     } else {
-        *rng.pick(&WRITERS[..5])
+        *rng.pick(&WRITERS[..6])
     };
     let flavor = if rng.chance(1, 2) { Flavor::Text } else { Flavor::Bytes };
     let mut wl = gen::workload(rng, flavor, if writer.contains("file") { max_len.min(256) } else { max_len });
@@ -381,6 +381,35 @@ pub fn execute(t: &Trace, stats: &mut Stats, record: bool) -> Outcome {
                     ));
                 }
                 Ok(())
+            }
+            "buffer" => {
+                // the deprecated in-memory `anstream::Buffer` is still a RawStream; the reference
+                // is the same kind of writer (its default write_vectored differs from Vec's)
+                #[allow(deprecated)]
+                {
+                    let mut s = build(mode, anstream::Buffer::new());
+                    check_mode(mode, &s, false)?;
+                    let result;
+                    let ref_bytes: Vec<u8>;
+                    if strips(mode) {
+                        let mut ref_strip = StripStream::new(anstream::Buffer::new());
+                        result = lk.drive(&mut s, &mut ref_strip, None, limit, finish);
+                        ref_bytes = ref_strip.into_inner().as_bytes().to_vec();
+                    } else {
+                        let mut ref_buf = anstream::Buffer::new();
+                        result = lk.drive(&mut s, &mut ref_buf, None, limit, finish);
+                        ref_bytes = ref_buf.as_bytes().to_vec();
+                    }
+                    let got = s.into_inner().as_bytes().to_vec();
+                    result?;
+                    if !lk.failed_all && got != ref_bytes {
+                        return Err(viol(
+                            "bytes-mismatch",
+                            format!("Buffer returned by into_inner holds {:?} but the reference delivered {:?}", lossy(&got), lossy(&ref_bytes)),
+                        ));
+                    }
+                    Ok(())
+                }
             }
             "file" | "mut_file" => {
                 let path = tmp_path(t, "a");
